@@ -648,11 +648,83 @@ func execProgram(prop string) func(qprog, core.Source) core.Result {
 	}
 }
 
+// programFamily enumerates the small programs of the quantifier systematically (thorough tier):
+// capacity 1-2, 1-2 producers with 1-2 values, 1-2 consumers (fixed count or until closed),
+// optional closer, optional RemoveAll caller, optional observer; at most 9 calls in total.
+func programFamily() []qprog {
+	var out []qprog
+	prodSets := [][][]int{{{1}}, {{1, 2}}, {{1}, {2}}, {{1, 2}, {3}}}
+	consSets := [][]int{{-1}, {1}, {2}, {-1, -1}, {1, 1}, {}}
+	for _, capacity := range []uint{1, 2} {
+		for _, prods := range prodSets {
+			for _, cons := range consSets {
+				for _, closer := range []bool{true, false} {
+					for _, ra := range []int{0, 1} {
+						for _, obs := range []int{0, 2} {
+							until := false
+							for _, c := range cons {
+								if c < 0 {
+									until = true
+								}
+							}
+							if until && !closer {
+								continue // readers until closed need somebody who closes
+							}
+							if ra == 1 && obs > 0 && len(cons) > 1 {
+								continue
+							}
+							calls := ra + obs
+							for _, p := range prods {
+								calls += len(p)
+							}
+							for _, c := range cons {
+								if c < 0 {
+									calls += 2
+								} else {
+									calls += c
+								}
+							}
+							if closer {
+								calls++
+							}
+							if calls > 9 || len(prods)+len(cons) > 3 {
+								continue
+							}
+							out = append(out, qprog{Name: fmt.Sprintf("family-%d", len(out)), Cap: capacity, Producers: prods, Consumers: cons, Closer: closer, RemoveAll: ra, Observer: obs})
+						}
+					}
+				}
+			}
+		}
+	}
+	return out
+}
+
+func familySweep(r *core.Runner, prop string) {
+	if !r.Thorough() {
+		return
+	}
+	fam := programFamily()
+	// one bounded enumeration over the family: the programs are taken round-robin by shard so that every
+	// program gets its own budget
+	for i, p := range fam {
+		if r.NShards > 1 && i%r.NShards != r.Shard {
+			continue
+		}
+		p := p
+		saved := r.NShards
+		r.NShards = 1 // the whole schedule space of this program belongs to this shard
+		core.DFS(r, core.Check[qprog]{Name: "family-schedules", Gen: func(core.Source) qprog { return p }, Exec: execProgram(prop), Bounded: true}, 25000)
+		r.NShards = saved
+	}
+}
+
 func TestC04(t *testing.T) {
 	r := core.Begin(t, "C04")
 	defer r.End()
 	core.DFS(r, core.Check[qprog]{Name: "all-schedules", Gen: genFixedProgram, Exec: execProgram("C04"), Bounded: true}, r.N(40000, 2000000))
 	core.Rapid(r, core.Check[qprog]{Name: "sampled-schedules", Gen: genRandomProgram, Exec: execProgram("C04")}, r.N(2500, 50000))
+	familySweep(r, "C04")
 }
 
 func TestC05(t *testing.T) {
@@ -661,4 +733,5 @@ func TestC05(t *testing.T) {
 	core.DFS(r, core.Check[qprog]{Name: "all-schedules", Gen: genFixedProgram, Exec: execProgram("C05"), Bounded: true}, r.N(40000, 2000000))
 	core.Rapid(r, core.Check[qprog]{Name: "sampled-schedules", Gen: genRandomProgram, Exec: execProgram("C05")}, r.N(2500, 50000))
 	core.DFS(r, core.Check[ctorCase]{Name: "constructors", Gen: genCtor, Exec: execCtor}, 0)
+	familySweep(r, "C05")
 }
